@@ -9,6 +9,7 @@ tmp=$(mktemp)
 for s in $names; do
   id=${s%-*}
   [ -f checks/$id.py ] || { echo "| $s | $id | (no check yet) | |" >>"$tmp"; continue; }
+  if grep -q '"retired"' seeded/$s/meta.json 2>/dev/null; then echo "$s: retired (skipped)"; continue; fi
   r=$(timeout 1800 tools/seedtest.sh "$id" "seeded/$s/patch.diff" "$tier" 2>&1)
   res=$(echo "$r" | grep "^RESULT" | sed "s/^RESULT [^:]*: //"); [ -n "$res" ] || { echo "$r" | grep -q PATCH-DOES-NOT-APPLY && res="PATCH DOES NOT APPLY TO HEAD" || res="NO RESULT (timeout or crash)"; }
   why=$(echo "$r" | grep -A1 "^VIOLATION" | tail -1 | sed 's/^ *//' | cut -c1-160 | tr '|' '/')
